@@ -98,6 +98,18 @@ var c03Alphabet = func() []buildOp {
 		buildOp{Name: "Build(type,id,Software,Fingerprint)", Do: func(m *stun.Message) {
 			_ = m.Build(stun.BindingSuccess, stun.NewTransactionIDSetter(tidA), stun.NewSoftware("sw/1"), stun.Fingerprint)
 		}, IsEncode: true},
+		// a Build that fails at its third setter: what it leaves behind is still a message
+		buildOp{Name: "Build(Username, Software, Realm of 800 bytes: refused)", Do: func(m *stun.Message) {
+			_ = m.Build(stun.NewUsername("bob"), stun.NewSoftware("sw/2"), stun.Realm(patBytes(800, 9)))
+		}, IsEncode: true},
+		// what Encode is for: the caller edits the attribute list, then re-encodes (only with two or more attributes,
+		// see the note on Encode and an emptied list in DESIGN 9.4)
+		buildOp{Name: "drop the first attribute; Encode", Do: func(m *stun.Message) {
+			if len(m.Attributes) >= 2 {
+				m.Attributes = m.Attributes[1:]
+				m.Encode()
+			}
+		}},
 	)
 	for i := range ops {
 		switch n := ops[i].Name; {
